@@ -254,6 +254,9 @@ func (g *xgen) elem(depth, maxDepth int, top bool) *XN {
 			continue
 		}
 		a := XA{Local: an, Value: g.text(), rawName: an}
+		if r.Chance(0.25) {
+			a.Value = "" // x="": the attribute node still gets its (empty) text child
+		}
 		if (g.nsMode == 1 || g.nsMode == 3) && r.Chance(0.2) {
 			a.Prefix, a.URI, a.rawName = g.pfx, "urn:p", g.pfx+":"+an
 		}
